@@ -5,7 +5,7 @@
    Reading guide.  [bucket_iter bk sz drop s] is BucketBatchSampler.__iter__ for the sampler
    order [s], idx2bucket [bk], bucket2size [sz], drop_incomplete [drop] ([None] = RuntimeError);
    [loader_batches lens p order] is one epoch of a Spect/LangDataLoader's batch sampler for the
-   utterance lengths [lens] and the epoch's order; [Err] = the constructor raised. *)
+   utterance lengths [lens] and the epoch's order. *)
 From Coq Require Import List Arith Bool ZArith Lia Sorting.Sorted Sorting.Permutation.
 From PV Require Import C14.Model C14.Spec C14.Proofs.
 Import ListNotations.
@@ -142,7 +142,7 @@ Theorem c14_bucket_sizes : forall lens nb bs dyn i2b b2s lb j,
   length b2s = length lb /\ bs <= tbl b2s j /\
   (dyn = false -> tbl b2s j = bs) /\
   (dyn = true -> let y := nth j lb 0 in let Y := last lb 0 in
-                 0 < y /\ tbl b2s j * y <= Y * bs /\ Y * bs < (tbl b2s j + 1) * y).
+                 0 < y -> tbl b2s j * y <= Y * bs /\ Y * bs < (tbl b2s j + 1) * y).
 Proof. exact bucket_sizes. Qed.
 Print Assumptions c14_bucket_sizes.
 
@@ -161,38 +161,18 @@ Theorem c14_plain_batches : forall (n : nat) (drop : bool) (l : list nat), 0 < n
 Proof. exact batch_sampler_spec. Qed.
 Print Assumptions c14_plain_batches.
 
-(* once constructed, a loader delivers batches for every epoch order (no RuntimeError) *)
-Theorem c14_loader_total : forall lens p order t, 1 <= p_bs p -> 1 <= p_nb p ->
-  (forall i, In i order -> i < length lens) -> loader_init lens p = Ok t ->
+(* "for every data set ... all data sets of 0..n utterances with arbitrary lengths, every batch
+   size, bucket count, dynamic sizing flag, drop_last": the constructor never raises and every
+   epoch delivers batches - empty data sets and zero-length utterances included *)
+Theorem c14_loader_constructor_total : forall lens p, 1 <= p_nb p -> exists t, loader_init lens p = Ok t.
+Proof. exact loader_init_total. Qed.
+Print Assumptions c14_loader_constructor_total.
+
+Theorem c14_loader_total : forall lens p order, 1 <= p_bs p -> 1 <= p_nb p ->
+  (forall i, In i order -> i < length lens) ->
   exists out, loader_batches lens p order = Ok out.
 Proof. exact loader_total. Qed.
 Print Assumptions c14_loader_total.
-
-(* F8.  The statement "for all data sets of 0..n utterances with arbitrary lengths ... the loader
-   delivers batches" is FALSE of the code as it is: the constructor raises, and exactly then: *)
-Theorem c14_loader_constructor_raises_characterised : forall lens p e, 1 <= p_nb p ->
-  (loader_init lens p = Err e <->
-   1 < p_nb p /\
-   ((e = IndexError /\ lens = []) \/
-    (e = ZeroDivisionError /\ p_dyn p = true /\ exists lb, length_bounds lens (p_nb p) = Ok lb /\ In 0 lb))).
-Proof. exact loader_init_errors. Qed.
-Print Assumptions c14_loader_constructor_raises_characterised.
-
-Theorem c14_loader_total_empty_refuted :
-  exists p, 1 <= p_bs p /\ 1 <= p_nb p /\ loader_init [] p = Err IndexError.
-Proof. exact loader_f8_empty_refuted. Qed.
-Print Assumptions c14_loader_total_empty_refuted.
-
-Theorem c14_loader_total_zero_length_refuted :
-  exists lens p, lens <> [] /\ 1 <= p_bs p /\ 1 <= p_nb p /\ loader_init lens p = Err ZeroDivisionError.
-Proof. exact loader_f8_zero_refuted. Qed.
-Print Assumptions c14_loader_total_zero_length_refuted.
-
-(* outside those two situations the constructor succeeds *)
-Theorem c14_loader_constructor_ok : forall lens p, 1 <= p_nb p -> lens <> [] ->
-  (p_dyn p = false \/ Forall (fun l => 0 < l) lens) -> exists t, loader_init lens p = Ok t.
-Proof. exact loader_init_ok. Qed.
-Print Assumptions c14_loader_constructor_ok.
 
 (* "Batching loses nothing": without drop_last the collated batches of an epoch carry exactly the
    utterances the epoch sampler produced, each once; with drop_last never more *)
@@ -208,28 +188,19 @@ Theorem c14_loader_invents_nothing : forall lens p order out x, 1 <= p_bs p ->
 Proof. exact loader_batches_sub. Qed.
 Print Assumptions c14_loader_invents_nothing.
 
-(* F11.  LangDataLoader: with utterance ids delivered it is the loader above on the reference
-   lengths; with suppress_uttids (its default) and num_length_buckets > 1 the code reads
-   x[0].size(0) of a bare tensor: token-only references always raise, references with segment
-   columns all count as length 3 and batches mix length classes *)
-Theorem c14_lang_loader_with_ids : forall W ds p order,
-  lang_loader_batches false W ds p order = loader_batches (map (fun x => length (fst x)) ds) p order.
-Proof. exact lang_loader_keeps_ids. Qed.
-Print Assumptions c14_lang_loader_with_ids.
+(* LangDataLoader: buckets by reference length whether or not utterance ids are delivered, so the
+   theorems above apply to it; in particular it never mixes reference-length classes *)
+Theorem c14_lang_loader_by_reference_length : forall ds p order,
+  lang_loader_batches ds p order = loader_batches (map (fun x => length (fst x)) ds) p order.
+Proof. exact lang_loader_by_ref_length. Qed.
+Print Assumptions c14_lang_loader_by_reference_length.
 
-Theorem c14_lang_loader_suppress_uttids_raises_characterised : forall ds p order, 1 < p_nb p ->
-  lang_loader_batches true 1 ds p order = Err IndexError.
-Proof. exact lang_loader_suppress_raises. Qed.
-Print Assumptions c14_lang_loader_suppress_uttids_raises_characterised.
-
-Theorem c14_lang_bucket_is_length_class_refuted :
-  exists (ds : list (list row * nat)) p order out lb b x y,
-    lang_loader_batches true 3 ds p order = Ok out /\
-    length_bounds (map (fun r => length (fst r)) ds) (p_nb p) = Ok lb /\
-    In b out /\ In x b /\ In y b /\
-    ~ same_class lb (length (fst (nth x ds ([], 0)))) (length (fst (nth y ds ([], 0)))).
-Proof. exact lang_loader_suppress_mixes_refuted. Qed.
-Print Assumptions c14_lang_bucket_is_length_class_refuted.
+Theorem c14_lang_bucket_is_length_class : forall (ds : list (list row * nat)) p order out lb b x y,
+  1 < p_nb p -> length_bounds (map (fun r => length (fst r)) ds) (p_nb p) = Ok lb ->
+  lang_loader_batches ds p order = Ok out -> In b out -> In x b -> In y b ->
+  same_class lb (length (fst (nth x ds ([], 0)))) (length (fst (nth y ds ([], 0)))).
+Proof. exact lang_loader_no_mixing. Qed.
+Print Assumptions c14_lang_bucket_is_length_class.
 
 (* ===== clause 3: collation =============================================================== *)
 
@@ -315,7 +286,7 @@ Print Assumptions c14_extract_window_length.
 (* ===== non-vacuity ======================================================================== *)
 
 (* the docstring example of BucketBatchSampler: 14 indices, bucket 1 = multiples of 3, sizes 2 *)
-Example c14_nonvacuous_sampler :
+Example c14_sampler_nonvacuous :
   let bk := fun n => if Nat.eqb (n mod 3) 0 then 1 else 0 in
   bucket_iter bk (fun _ => 2) true (seq 0 14) = Some [[1;2];[0;3];[4;5];[7;8];[6;9];[10;11]] /\
   bucket_iter bk (fun _ => 2) false (seq 0 14)
@@ -324,17 +295,19 @@ Example c14_nonvacuous_sampler :
 Proof. vm_compute. repeat split. Qed.
 
 (* a length-bucketed loader with ties at the bucket boundary and dynamic sizes *)
-Example c14_nonvacuous_loader :
+Example c14_loader_nonvacuous :
   let lens := [3; 1; 4; 1; 5; 9; 2; 6] in
   let p := mkLP 2 3 true false in
   length_bounds lens 3 = Ok [1; 3; 9] /\
   bucket_params lens 3 2 true = Ok ([1; 0; 2; 0; 2; 2; 1; 2], [18; 6; 2]) /\
   loader_batches lens p [7; 2; 4; 5; 1; 3; 6; 0] = Ok [[7; 2]; [4; 5]; [1; 3]; [6; 0]] /\
-  loader_len lens p [7; 2; 4; 5; 1; 3; 6; 0] = Ok 4.
+  loader_len lens p [7; 2; 4; 5; 1; 3; 6; 0] = Ok 4 /\
+  loader_batches [] p [] = Ok [] /\ loader_len [] p [] = Ok 0 /\
+  loader_batches [0; 0; 3; 4] (mkLP 2 2 true false) [0; 1; 2; 3] = Ok [[2; 3]; [0; 1]].
 Proof. vm_compute. repeat split. Qed.
 
 (* a collation with sorting, a missing alignment and both layouts; an edge-replicated window *)
-Example c14_nonvacuous_collate :
+Example c14_collate_nonvacuous :
   let u1 := mkUtt [[1]; [2]]%Z (Some [7; 8]%Z) (Some [[5]]%Z) 0 in
   let u2 := mkUtt [[3]; [4]; [5]]%Z (Some [9; 10; 11]%Z) (Some [[6]; [7]]%Z) 1 in
   Forall wf_utt [u1; u2] /\
